@@ -52,7 +52,16 @@ var c02Refs = []string{"/x", "..", "?q", "#f", "", "//h2", "C|/y"}
 
 // c02Parse: one parse (optionally with base) under one configuration, then every getter, the parameter list,
 // Clone, and resolutions against the result.
+// c02Ctx (set while the check body runs) lets the two entry points name the case they are working on, so that the
+// CPU-time watchdog can write a replayable artefact if the library never comes back.
+var c02Ctx *fw.Ctx
+
 func c02Parse(cfg []string, p url.Parser, base, input string) *fw.Finding {
+	if c02Ctx != nil {
+		c02Ctx.CurCase(func() *fw.Case {
+			return &fw.Case{Kind: "c02-parse", Cfg: append([]string{}, cfg...), S: fw.Strs(base, input)}
+		})
+	}
 	subject := cfgName(cfg) + " :: " + subj(input, base)
 	var u *url.Url
 	var err error
@@ -102,6 +111,12 @@ var c02Starts = []string{"http://u:p@h.test:81/d1/d2/f?q=1&r=2#frag", "file:///C
 // c02Ops: a history of operations on a URL built by parser p (setters, list operations, Iterate,
 // SetSearchParams with a list taken from another URL, Canonicalize-by-reparse, clone, resolve).
 func c02Hist(cfg []string, p url.Parser, start string, ops []Op) *fw.Finding {
+	if c02Ctx != nil {
+		oo := append([]Op{}, ops...)
+		c02Ctx.CurCase(func() *fw.Case {
+			return &fw.Case{Kind: "c02-hist", Cfg: append([]string{}, cfg...), S: fw.Strs(start), Ops: opsToQS(oo)}
+		})
+	}
 	subject := cfgName(cfg) + " :: " + histString(start, ops)
 	var f *fw.Finding
 	var vlen int64
@@ -209,6 +224,8 @@ func c02Body(c *fw.Ctx) {
 	}
 	hook.Set(c02Hook)
 	c02Budget = 1 << 62
+	c02Ctx = c
+	defer func() { c02Ctx = nil }()
 	report := func(f *fw.Finding, kind string, cfg []string, s []string, ops []Op) {
 		if f == nil {
 			return
@@ -219,6 +236,9 @@ func c02Body(c *fw.Ctx) {
 		c.Report(f, func() *fw.Case { return &fw.Case{Kind: kind, Cfg: cf, S: fw.Strs(ss...), Ops: opsToQS(oo)} })
 	}
 	one := func(label string, cfg []string, p url.Parser, base, input string) {
+		c.CurCase(func() *fw.Case {
+			return &fw.Case{Kind: "c02-parse", Cfg: append([]string{}, cfg...), S: fw.Strs(base, input)}
+		})
 		c.Eval()
 		f := c02Parse(cfg, p, base, input)
 		if f == nil {
